@@ -120,7 +120,7 @@ func main() {
 		if !filepath.IsAbs(abs) {
 			abs = filepath.Join(envOr("VERIF_CWD", verifRoot), abs)
 		}
-		viol, msg := runReplay(bin, abs)
+		viol, msg := runReplay(bin, abs, false)
 		if viol {
 			fmt.Printf("VIOLATION property=%s replay=%s\n", id, abs)
 			fmt.Println(firstLine(msg))
@@ -142,7 +142,7 @@ func main() {
 		stillFails := false
 		for _, w := range f.Witness {
 			wp := filepath.Join(verifRoot, w)
-			viol, msg := runReplay(bin, wp)
+			viol, msg := runReplay(bin, wp, true)
 			witnessesRun++
 			if viol {
 				stillFails = true
@@ -316,7 +316,7 @@ func build(race bool) string {
 	return bin
 }
 
-func runReplay(bin, file string) (violation bool, msg string) {
+func runReplay(bin, file string, noKF bool) (violation bool, msg string) {
 	dir, err := os.MkdirTemp("", "vreplay-")
 	if err != nil {
 		fatal2("%v", err)
@@ -326,7 +326,13 @@ func runReplay(bin, file string) (violation bool, msg string) {
 	defer cancel()
 	cmd := exec.CommandContext(ctx, bin, "-test.run", "^TestReplay$", "-test.count", "1", "-test.timeout", "100s")
 	cmd.Dir = filepath.Join(verifRoot, "harness", "props")
-	cmd.Env = append(os.Environ(), "VERIF_OUT="+dir, "VERIF_REPLAY="+file, "VERIF_KF="+filepath.Join(verifRoot, "known_findings.json"))
+	kf := filepath.Join(verifRoot, "known_findings.json")
+	if noKF {
+		// witnesses of listed findings are judged with no finding excused, so that the
+		// KNOWN-FINDING line is printed only while the defect is really still there
+		kf = "/dev/null"
+	}
+	cmd.Env = append(os.Environ(), "VERIF_OUT="+dir, "VERIF_REPLAY="+file, "VERIF_KF="+kf)
 	out, err := cmd.CombinedOutput()
 	rb, rerr := os.ReadFile(filepath.Join(dir, "replay-result.json"))
 	if rerr != nil {
